@@ -115,6 +115,20 @@ package core
 //@ assume func (Configuration).IsABuildFile
 //@   pure
 
+// Accessors used by the garbage collector's contracts (C25): functions of the target / graph.
+//@ assume func (BuildTarget).DeclaredDependencies
+//@   pure
+//@ assume func (BuildGraph).Target
+//@   pure
+//@ assume func (BuildTarget).AllLocalSourcePaths
+//@   pure
+//@ assume func (BuildGraph).PackageMap
+//@   pure
+//@ assume func (Package).AllTargets
+//@   pure
+//@ assume func (Package).IsIncludedIn
+//@   pure
+
 // ---------------------------------------------------------------------------------------------
 // Cycle detection (C06): every reported cycle is genuine, for all graphs and all visiting orders.
 //
